@@ -559,6 +559,11 @@ class TsonisFamily(ClimateFamily):
         ClimateFamily.__init__(self)
         self.queries["correlation"] = call("correlation")
         self.queries["winter_only"] = call("winter_only")
+        for n in ("correlation_weighted_average_path_length",
+                  "correlation_weighted_closeness",
+                  "local_correlation_weighted_vulnerability"):
+            self.queries[n] = call(n)
+            self.tol[n] = 1e-5
         self.mutators["set_winter_only"] = self.m_winter
         self.mutators["data_window_then_set_winter_only"] = self.m_rewindow
 
@@ -624,6 +629,30 @@ class DerivedClimateFamily(TsonisFamily):
         self.name = kind + "ClimateNetwork"
         self.queries.pop("correlation", None)
         self.queries.pop("winter_only", None)
+        for n in ("correlation_weighted_average_path_length",
+                  "correlation_weighted_closeness",
+                  "local_correlation_weighted_vulnerability"):
+            self.queries.pop(n, None)
+        # (MutualInfoClimateNetwork's three mutual_information_weighted_*
+        # measures always raise - they call mutual_information() without
+        # data, the file-cache path of KF-C01-1 - and are left out)
+        extra = {"Havlin": ["correlation_strength_weighted_average_path_"
+                            "length", "correlation_strength_weighted_"
+                            "closeness",
+                            "correlation_lag_weighted_average_path_length",
+                            "correlation_lag_weighted_closeness",
+                            "local_correlation_strength_weighted_"
+                            "vulnerability",
+                            "local_correlation_lag_weighted_vulnerability",
+                            "get_max_delay"],
+                 "Spearman": ["correlation_weighted_average_path_length",
+                              "correlation_weighted_closeness"],
+                 "PartialCorrelation": [
+                     "correlation_weighted_average_path_length",
+                     "correlation_weighted_closeness"]}
+        for n in extra.get(kind, []):
+            self.queries[n] = call(n)
+            self.tol[n] = 1e-5
         del self.mutators["set_winter_only"]
         self.mutators.pop("data_window_then_set_winter_only", None)
         if kind in ("Spearman", "MutualInfo", "PartialCorrelation"):
@@ -697,7 +726,8 @@ RQA = ["recurrence_matrix", "recurrence_rate", "diagline_dist",
        "max_diaglength", "average_diaglength", "diag_entropy",
        "trapping_time", "max_vertlength", "mean_recurrence_time",
        "rqa_summary"]
-NETQ = ["degree", "local_clustering", "transitivity", "betweenness",
+NETQ = ["transitivity_dim_single_scale", "local_clustering_dim_single_scale",
+        "degree", "local_clustering", "transitivity", "betweenness",
         "path_lengths", "nsi_degree", "average_path_length", "coreness",
         "closeness", "global_clustering", "nsi_local_clustering"]
 
@@ -943,6 +973,8 @@ class JointFamily(RPFamily):
             self.mutators.pop(k, None)
         self.queries.pop("distance_matrix", None)
         self.queries.pop("white_vertline_dist", None)
+        self.queries.pop("transitivity_dim_single_scale", None)
+        self.queries.pop("local_clustering_dim_single_scale", None)
 
     def _val(self, m, mode, a):
         v = RPFamily._val(self, m, mode, a)
